@@ -26,17 +26,23 @@ def serial_case(rep, drv, rng):
 	h = {k: rng.choice([1, 2, 3, 5, 0.5]) for k in range(1, N + 1)}
 	z = rng.choice([1, 1.645, 2.33]); sOut = rng.randint(0, 3); sIn = rng.randint(0, 3)
 	sd = rng.choice([1, 10, 25.5])
-	case = {'N': N, 'T': T, 'h': h, 'z': z, 'sOut': sOut, 'sIn': sIn, 'sd': sd}
+	# the demand-bound constant may differ from stage to stage (dict), like every other per-stage parameter (own stream: the main one is unchanged)
+	rng_z = random.Random(1009 * N + int(100 * sd) + sOut + 7 * sIn + sum(T.values()))
+	zk = {k: z for k in range(1, N + 1)}
+	if N >= 2 and rng_z.random() < .5:
+		zk = {k: rng_z.choice([1, 1.645, 2.33, 3]) for k in range(1, N + 1)}
+		rep.count('serial:stage-dependent-demand-bound-constant')
+	case = {'N': N, 'T': T, 'h': h, 'z': zk, 'sOut': sOut, 'sIn': sIn, 'sd': sd}
 	rep.case('gsm_serial', case, nontrivial=N >= 2); rep.count('serial:N=%d' % N)
 	try:
 		with warnings.catch_warnings():
 			warnings.simplefilter('ignore')
-			cst, cost = gsm_serial.optimize_committed_service_times(num_nodes=N, local_holding_cost=h, processing_time=T, demand_bound_constant=z,
+			cst, cost = gsm_serial.optimize_committed_service_times(num_nodes=N, local_holding_cost=h, processing_time=T, demand_bound_constant=(zk if len(set(zk.values())) > 1 else z),
 					external_outbound_cst=sOut, external_inbound_cst=sIn, demand_mean=10, demand_standard_deviation=sd)
 	except Exception as e:
 		rep.diff('gsm_serial', 'raised %s' % err_enum(e), case, oracle=True, theorem=THEOREM); return
 	maxtau = sIn + sum(T.values()) + 2
-	stages = [{'T': T[k], 'c': frs([h[k] * z * sd * math.sqrt(t) for t in range(maxtau + 1)])} for k in range(N, 0, -1)]
+	stages = [{'T': T[k], 'c': frs([h[k] * zk[k] * sd * math.sqrt(t) for t in range(maxtau + 1)])} for k in range(N, 0, -1)]
 	mo = drv.call('gsmserial', stages=stages, sOut=sOut, SI=sIn)
 	rep.tol_cmp += 1
 	bad = []
@@ -75,7 +81,7 @@ def gen_tree(rng, nmax):
 	return kind, n, edges
 
 
-def tree_case(rep, drv, rng, th):
+def tree_case(rep, drv, rng, th, fixed=None):
 	from stockpyl import gsm_tree
 	from stockpyl.supply_chain_network import network_from_edges
 	kind, n, pedges = gen_tree(rng, 6 if th else 5)
@@ -102,6 +108,23 @@ def tree_case(rep, drv, rng, th):
 			extIn[l] = rng_in.choice([1, 2, 4])
 			rep.count('tree:external-inbound-cst-at-non-source-stage')
 	extOut = {l: (rng.choice([0, 0, 1, 3]) if l in sinks else None) for l in labels}
+	# ... and an inner stage that also sells to the outside (own demand) may have promised those customers a service time of its own
+	for l in labels:
+		if l not in sinks and own[l] and rng_in.random() < .6:
+			extOut[l] = rng_in.choice([0, 1, 2])
+			rep.count('tree:external-outbound-cst-at-non-sink-stage')
+	if fixed:
+		# corpus instance: topology, labels and data given (positions 0..n-1 as in `labels`)
+		kind, labels, edges = 'mixed', list(fixed['labels']), [tuple(e) for e in fixed['edges']]
+		n = len(labels)
+		succ = {l: [] for l in labels}; pred = {l: [] for l in labels}
+		for a, b in edges:
+			succ[a].append(b); pred[b].append(a)
+		sinks = [l for l in labels if not succ[l]]; sources = [l for l in labels if not pred[l]]
+		T, h = dict(fixed['T']), dict(fixed['h']); z = {l: 1.645 for l in labels}
+		sd = dict(fixed['sd']); own = {l: sd[l] is not None for l in labels}; mean = {l: (10 if own[l] else None) for l in labels}
+		extIn = {l: (0 if l in sources else None) for l in labels}; extOut = dict(fixed['extOut'])
+		rep.count('tree:corpus')
 	case = {'kind': kind, 'labels': labels, 'edges': edges, 'T': T, 'h': h, 'z': z, 'sd': sd, 'extIn': extIn, 'extOut': extOut}
 	rep.case('gsm_tree', case, nontrivial=True); rep.count('tree:' + kind); rep.count('tree:n=%d' % n)
 	def build(relabel=None):
@@ -136,7 +159,7 @@ def tree_case(rep, drv, rng, th):
 		M[l] = T[l] + max([extIn[l] or 0] + [M[p] for p in pred[l]])
 	maxtau = max(M.values()) + 1
 	nodes = [{'T': T[l], 'c': frs([h[l] * z[l] * math.sqrt(var[l]) * math.sqrt(t) for t in range(maxtau + 1)]),
-			  'preds': [pos[p] for p in pred[l]], 'extIn': extIn[l] or 0, 'extOut': extOut[l] if l in sinks else None} for l in order]
+			  'preds': [pos[p] for p in pred[l]], 'extIn': extIn[l] or 0, 'extOut': extOut[l]} for l in order]
 	vec = [int(cst[l]) for l in order]
 	ev = drv.call('gsmtree', nodes=nodes, cst=vec)
 	bad = []
@@ -158,7 +181,7 @@ def tree_case(rep, drv, rng, th):
 			warnings.simplefilter('ignore')
 			tree = gsm_tree.preprocess_tree(build())
 		for which, cv in (('returned', {l: int(cst[l]) for l in order}), ('random', {l: rng.randint(0, M[l]) for l in order})):
-			for l in sinks:
+			for l in labels:
 				if extOut[l] is not None and which == 'random':
 					cv[l] = min(cv[l], extOut[l])
 			evh = drv.call('gsmtree', nodes=nodes, cst=[cv[l] for l in order])
@@ -198,7 +221,7 @@ def tree_case(rep, drv, rng, th):
 	except Exception as e:
 		import traceback
 		bad.append('gsm_helpers raised %s: %s' % (err_enum(e), traceback.format_exc()[-200:]))
-	bounds = [min(M[l], extOut[l]) if (l in sinks and extOut[l] is not None) else M[l] for l in order]
+	bounds = [min(M[l], extOut[l]) if extOut[l] is not None else M[l] for l in order]
 	size = 1
 	for b in bounds:
 		size *= b + 1
@@ -287,6 +310,14 @@ def run(rep, drv):
 	rng = random.Random(rep.seed + 8)
 	for k in range(600 if th else 100):
 		serial_case(rep, drv, rng)
+	# corpus first: an assembly stage with a slow dedicated supplier and a supplier it shares with a second market, under every labelling of the four stages that
+	# the optimiser can meet (the order in which the shared supplier is backtracked depends on it)
+	import itertools as _it
+	for perm in _it.permutations([1, 2, 3, 4]):
+		A, B, C, D = perm          # slow supplier, assembly, shared supplier, second market
+		tree_case(rep, drv, random.Random(7), th, fixed={'labels': [A, B, C, D], 'edges': [(A, B), (C, B), (C, D)], 'T': {A: 6, B: 1, C: 2, D: 1}, 'h': {A: 1.0, B: 1.2, C: 0.5, D: 5.0},
+			'sd': {A: None, B: 2.0, C: None, D: 3.0}, 'extOut': {A: None, B: 0, C: None, D: 0}})
+
 	for k in range(1200 if th else 200):
 		tree_case(rep, drv, rng, th)
 
